@@ -5,17 +5,20 @@
 (* their own; every thread records the priority of every node it created,  *)
 (* in creation order.  The reference stream is recorded from the same code *)
 (* run single-threaded in a fresh process (sequential semantics are not in *)
-(* question).  Priorities are logged as <<high 16 bits, low 16 bits>>.     *)
+(* question): stream idx is what the (idx+1)-th thread that ever creates a *)
+(* node observes when nothing runs concurrently (per-thread generators may *)
+(* be seeded per thread).  Priorities are <<high 16 bits, low 16 bits>>.   *)
 (*                                                                         *)
-(*   solo{prios}        reference stream (chunked, in order)               *)
+(*   solo{idx,prios}    reference stream idx (chunked, in order)           *)
 (*   thread{t,prios}    stream observed by thread t (chunked, in order)    *)
 (*   result{t,got,solo} observables of thread t's treap and of the same    *)
 (*                      operations run alone                               *)
 (*                                                                         *)
 (* Accepted iff every thread's treap results equal the solo results and    *)
 (* the streams are explained by one of the two lawful designs of module    *)
-(* TreapRng:  PerThread (each stream is a prefix of the reference) or      *)
-(* SharedAtomic (the threads' draws partition a prefix of the reference    *)
+(* TreapRng:  PerThread (each stream is a prefix of one of the reference   *)
+(* streams) or                                                             *)
+(* SharedAtomic (the threads' draws partition a prefix of reference 0,     *)
 (* stream, each thread's part in order: decided by walking the reference   *)
 (* -- the next reference value must be the next pending draw of some       *)
 (* thread).  The design to test is a constant; the runner accepts if       *)
@@ -29,7 +32,10 @@ RECURSIVE Cat(_, _, _)
 \* concatenation of the prios of all events satisfying Sel, in trace order
 Cat(i, Sel(_), acc) == IF i > Len(Rec) THEN acc ELSE Cat(i + 1, Sel, IF Sel(Rec[i]) THEN acc \o Rec[i].prios ELSE acc)
 
-Ref == Cat(1, LAMBDA e : e.ev = "solo", <<>>)
+RefIdx == {Rec[i].idx : i \in {j \in 1 .. Len(Rec) : Rec[j].ev = "solo"}}
+RefOf(x) == Cat(1, LAMBDA e : e.ev = "solo" /\ e.idx = x, <<>>)
+Refs == [x \in RefIdx |-> RefOf(x)]
+Ref == Refs[0]
 ThreadIds == {Rec[i].t : i \in {j \in 1 .. Len(Rec) : Rec[j].ev = "thread"}}
 StreamOf(t) == Cat(1, LAMBDA e : e.ev = "thread" /\ e.t = t, <<>>)
 Streams == [t \in ThreadIds |-> StreamOf(t)]
@@ -37,10 +43,14 @@ TotalDraws == LET RECURSIVE S(_)
                   S(T) == IF T = {} THEN 0 ELSE LET t == CHOOSE x \in T : TRUE IN Len(Streams[t]) + S(T \ {t})
               IN S(ThreadIds)
 
-PerThreadOK(t) == Len(Streams[t]) <= Len(Ref) /\ Streams[t] = SubSeq(Ref, 1, Len(Streams[t]))
+PrefixOf(s, r) == Len(s) <= Len(r) /\ s = SubSeq(r, 1, Len(s))
+PerThreadOK(t) == \E x \in RefIdx : PrefixOf(Streams[t], Refs[x])
+\* where the stream leaves the reference it starts like (reference 0 if it starts like none)
 FirstBad(t) ==
     LET s == Streams[t]
-        B == {i \in 1 .. Len(s) : i > Len(Ref) \/ s[i] # Ref[i]}
+        C == {x \in RefIdx : Len(s) > 0 /\ Len(Refs[x]) > 0 /\ Refs[x][1] = s[1]}
+        r == IF C = {} THEN Ref ELSE Refs[CHOOSE x \in C : TRUE]
+        B == {i \in 1 .. Len(s) : i > Len(r) \/ s[i] # r[i]}
     IN IF B = {} THEN 0 ELSE CHOOSE i \in B : \A j \in B : i <= j
 
 \* l: line being consumed; k: reference values matched so far; cur[t]: draws of t matched so far
@@ -65,7 +75,7 @@ JudgePerThread ==
     \* (an implication, not a disjunction: TLC explores both branches of a disjunction inside an action)
     /\ \A t \in ThreadIds : (~PerThreadOK(t)) =>
            Mismatch(0, [ev |-> "streams", design |-> Design, thread |-> t, first_deviation_at_draw |-> FirstBad(t),
-                        draws |-> Len(Streams[t])], "stream of the thread is not a prefix of the sequential stream")
+                        draws |-> Len(Streams[t])], "stream of the thread is not a prefix of any sequential stream")
     /\ Note("streams judged")
     /\ phase' = "done" /\ UNCHANGED <<l, k, cur>>
 
